@@ -157,6 +157,20 @@ impl Counters {
 
 /// Run `f(i)` for i in 0..n on `threads` OS threads; stops handing out work when `stop` is
 /// raised or the deadline passes. Returns the results in index order (None = not run).
+/// Watchdog for engines that call the code under test in-process: if one item keeps a harness
+/// thread busy for longer than `limit_s` of real time, the code under test does not come back
+/// (an endless loop has no yield point, no file operation, no child to kill). That is reported as
+/// a violation of `property` with what `describe(item)` says — never silently waited for.
+pub struct Watch {
+    pub property: &'static str,
+    pub limit_s: u64,
+    pub describe: Box<dyn Fn(u64) -> String + Send + Sync>,
+}
+static WATCH: Mutex<Option<Watch>> = Mutex::new(None);
+pub fn set_watch(w: Watch) {
+    *WATCH.lock().unwrap() = Some(w);
+}
+
 pub fn par_map<R: Send>(
     n: u64,
     threads: usize,
@@ -166,12 +180,39 @@ pub fn par_map<R: Send>(
 ) -> Vec<(u64, R)> {
     let next = AtomicU64::new(0);
     let out: Mutex<Vec<(u64, R)>> = Mutex::new(Vec::new());
+    // (item + 1, start in ms since t0) per harness thread; 0 = idle
+    let t0 = Instant::now();
+    let busy: Vec<(AtomicU64, AtomicU64)> = (0..threads).map(|_| (AtomicU64::new(0), AtomicU64::new(0))).collect();
+    let finished = AtomicBool::new(false);
     std::thread::scope(|s| {
+        let busy = &busy;
+        let finished = &finished;
+        s.spawn(move || {
+            while !finished.load(Ordering::SeqCst) {
+                std::thread::sleep(std::time::Duration::from_millis(500));
+                let g = WATCH.lock().unwrap();
+                let Some(w) = g.as_ref() else { continue };
+                let now = t0.elapsed().as_millis() as u64;
+                for (item, start) in busy.iter() {
+                    let it = item.load(Ordering::SeqCst);
+                    if it != 0 && now.saturating_sub(start.load(Ordering::SeqCst)) > w.limit_s * 1000 {
+                        let what = (w.describe)(it - 1);
+                        let body = serde_json::json!({"property": w.property, "engine": "watchdog", "item": it - 1, "case": what,
+                            "violation": {"kind": "no-return", "detail": format!("the code under test did not come back within {} s of real time", w.limit_s)}, "replay_verified": false});
+                        let path = write_replay(w.property, 0, it - 1, &body);
+                        println!("VIOLATION property={} replay={}", w.property, path);
+                        println!("  kind=no-return detail=item {} kept a harness thread busy for more than {} s: {}", it - 1, w.limit_s, what.chars().take(600).collect::<String>());
+                        std::process::exit(1);
+                    }
+                }
+            }
+        });
+        let mut handles = Vec::new();
         for t in 0..threads {
             let next = &next;
             let out = &out;
             let f = &f;
-            std::thread::Builder::new()
+            let h = std::thread::Builder::new()
                 .name(format!("harness-{}", t))
                 .stack_size(8 * 1024 * 1024)
                 .spawn_scoped(s, move || {
@@ -188,12 +229,20 @@ pub fn par_map<R: Send>(
                         if i >= n {
                             break;
                         }
+                        busy[t].1.store(t0.elapsed().as_millis() as u64, Ordering::SeqCst);
+                        busy[t].0.store(i + 1, Ordering::SeqCst);
                         let r = f(i);
+                        busy[t].0.store(0, Ordering::SeqCst);
                         out.lock().unwrap().push((i, r));
                     }
                 })
                 .unwrap();
+            handles.push(h);
         }
+        for h in handles {
+            let _ = h.join();
+        }
+        finished.store(true, Ordering::SeqCst);
     });
     let mut v = out.into_inner().unwrap();
     v.sort_by_key(|x| x.0);
